@@ -91,6 +91,7 @@ KindsCore  == {KCvt(r, u) : r \in BOOLEAN, u \in BOOLEAN} \cup {KCvtL(TRUE, TRUE
                     KIc("D", TRUE, TRUE), KIc("U", TRUE, TRUE), KIc("U", FALSE, TRUE)}
 KindsSmall == {KCvt(TRUE, TRUE), KCvt(FALSE, FALSE), KCvtL(TRUE, TRUE), KDnc, KUns, KPlain, KIc("cur", TRUE, TRUE), KIc("E", FALSE, FALSE)}
 KindsTiny  == {KCvt(TRUE, TRUE), KDnc, KPlain, KIc("cur", TRUE, FALSE)}
+KindsTrio  == {KCvt(TRUE, TRUE), KDnc, KPlain}
 KindsTinyL == {KCvtL(TRUE, TRUE), KCvt(FALSE, TRUE), KDnc, KPlain, KIc("E", FALSE, FALSE)}
 
 (* a number for every kind, used only to split enumerations *)
